@@ -15,7 +15,10 @@ import functools
 import itertools
 import math
 
+from fractions import Fraction
+
 from vlib import common as V
+from vlib import nasty as N
 
 ALPHA = (-2, -1, 0, 1, 2, 3)
 PERM_CAP = 6      # permutations only for inputs up to this length (n! results)
@@ -42,8 +45,8 @@ class Exc:
 # ----------------------------------------------------------------------------
 
 def canon(x):
-    """LazyList/generator -> list, sympy Integer/bool -> int, Rational -> (p, q);
-    strings stay strings."""
+    """LazyList/generator -> list, sympy Integer/bool -> int, Rational -> Fraction
+    (exact); strings stay strings."""
     import sympy
     import types
     from vyxal.LazyList import LazyList
@@ -58,7 +61,7 @@ def canon(x):
     if isinstance(x, sympy.Integer):
         return int(x)
     if isinstance(x, sympy.Rational):
-        return ("Q", int(x.p), int(x.q))
+        return Fraction(int(x.p), int(x.q))     # exact; never compared as a float
     if isinstance(x, float):
         return ("float", repr(x))
     return ("?", type(x).__name__, repr(x)[:60])
@@ -91,8 +94,17 @@ def _call(f, *args):
         return Exc(type(e).__name__)
 
 
-def _fresh(x):
-    return [_fresh(y) for y in x] if isinstance(x, list) else x
+def build(spec, pat=None):
+    """Input spec (vlib.nasty convention) -> a FRESH implementation value; pat = how the
+    list levels are represented (None: plain lists), see nasty.realise."""
+    if isinstance(spec, str):
+        return spec
+    return N.realise(spec, pat or "p")
+
+
+def shown(spec, pat):
+    """json-able description of an input for replays."""
+    return spec if pat in (None, "p") or isinstance(spec, str) else {"value": spec, "representation": N.describe(spec, pat)}
 
 
 UNARY = ["sort", "reverse", "reverse2", "uniquify", "flatten", "sum", "product", "max", "min", "cumsum", "deltas",
@@ -103,70 +115,163 @@ UNARY = ["sort", "reverse", "reverse2", "uniquify", "flatten", "sum", "product",
 
 def impl_unary(item):
     """All one-argument builtins on one list (or string) + queries + wrap."""
-    l, xs, ks = item
+    l, xs, ks, pat = item
     from vyxal import elements as E, helpers as H
     c = _call
     n = len(l)
+
+    def mk():
+        return build(l, pat)
     r = {}
-    r["sort"] = c(E.vy_sort, _fresh(l))
-    r["reverse"] = c(E.reverse, _fresh(l))
-    r["reverse2"] = c(lambda v, ctx: E.reverse(E.reverse(v, ctx), ctx), _fresh(l))
-    r["uniquify"] = c(E.uniquify, _fresh(l))
-    r["flatten"] = c(E.deep_flatten, _fresh(l))
-    r["sum"] = c(E.vy_sum, _fresh(l))
-    r["product"] = c(E.product, _fresh(l)) if not isinstance(l, str) else None
-    r["max"] = c(E.monadic_maximum, _fresh(l))
-    r["min"] = c(E.monadic_minimum, _fresh(l))
-    r["cumsum"] = c(E.cumulative_sum, _fresh(l))
-    r["deltas"] = c(E.deltas, _fresh(l)) if not isinstance(l, str) else None
-    r["deltas_cumsum"] = c(lambda v, ctx: E.deltas(E.cumulative_sum(v, ctx), ctx), _fresh(l)) if not isinstance(l, str) else None
-    r["uninterleave"] = c(E.uninterleave, _fresh(l))
-    r["reinterleave"] = c(lambda v, ctx: E.interleave(*E.uninterleave(v, ctx), ctx), _fresh(l))
-    r["prefixes"] = c(H.prefixes, _fresh(l))
-    r["suffixes"] = c(H.suffixes, _fresh(l))
-    r["sublists"] = c(E.sublists, _fresh(l))
-    r["powerset"] = c(E.powerset, _fresh(l)) if n <= POWER_CAP else None
-    r["permutations"] = c(E.permutations, _fresh(l)) if n <= PERM_CAP else None
-    r["group"] = c(E.group_consecutive, _fresh(l))
-    r["counts"] = c(E.counts, _fresh(l))
-    r["grade_up"] = c(E.grade_up, _fresh(l)) if not isinstance(l, str) else None
-    r["grade_down"] = c(E.grade_down, _fresh(l)) if not isinstance(l, str) else None
-    r["head"] = c(E.head, _fresh(l))
-    r["tail"] = c(E.tail, _fresh(l))
-    r["head_remove"] = c(E.head_remove, _fresh(l))
-    r["tail_remove"] = c(E.tail_remove, _fresh(l))
-    r["length"] = c(E.length, _fresh(l))
-    r["queries"] = [(x, c(E.count_item, _fresh(l), x), c(E.contains, _fresh(l), x), c(E.find, _fresh(l), x)) for x in xs]
-    r["wrap"] = [(k, c(E.wrap, _fresh(l), k)) for k in ks]
+    r["sort"] = c(E.vy_sort, mk())
+    r["reverse"] = c(E.reverse, mk())
+    r["reverse2"] = c(lambda v, ctx: E.reverse(E.reverse(v, ctx), ctx), mk())
+    r["uniquify"] = c(E.uniquify, mk())
+    r["flatten"] = c(E.deep_flatten, mk())
+    r["sum"] = c(E.vy_sum, mk())
+    r["product"] = c(E.product, mk()) if not isinstance(l, str) else None
+    r["max"] = c(E.monadic_maximum, mk())
+    r["min"] = c(E.monadic_minimum, mk())
+    r["cumsum"] = c(E.cumulative_sum, mk())
+    r["deltas"] = c(E.deltas, mk()) if not isinstance(l, str) else None
+    r["deltas_cumsum"] = c(lambda v, ctx: E.deltas(E.cumulative_sum(v, ctx), ctx), mk()) if not isinstance(l, str) else None
+    r["uninterleave"] = c(E.uninterleave, mk())
+    r["reinterleave"] = c(lambda v, ctx: E.interleave(*E.uninterleave(v, ctx), ctx), mk())
+    r["prefixes"] = c(H.prefixes, mk())
+    r["suffixes"] = c(H.suffixes, mk())
+    r["sublists"] = c(E.sublists, mk())
+    r["powerset"] = c(E.powerset, mk()) if n <= POWER_CAP else None
+    # n! answers: full length only for short items (permutations act on positions; long
+    # numerals would only inflate the literals handed to Coq)
+    wide = not isinstance(l, str) and any(len(str(x)) > 6 for x in l)
+    r["permutations"] = c(E.permutations, mk()) if n <= (4 if wide else PERM_CAP) else None
+    r["group"] = c(E.group_consecutive, mk())
+    r["counts"] = c(E.counts, mk())
+    r["grade_up"] = c(E.grade_up, mk()) if not isinstance(l, str) else None
+    r["grade_down"] = c(E.grade_down, mk()) if not isinstance(l, str) else None
+    r["head"] = c(E.head, mk())
+    r["tail"] = c(E.tail, mk())
+    r["head_remove"] = c(E.head_remove, mk())
+    r["tail_remove"] = c(E.tail_remove, mk())
+    r["length"] = c(E.length, mk())
+    r["queries"] = [(x, c(E.count_item, mk(), build(x)), c(E.contains, mk(), build(x)), c(E.find, mk(), build(x))) for x in xs]
+    r["wrap"] = [(k, c(E.wrap, mk(), k)) for k in ks]
     return r
 
 
 def impl_binary(item):
-    a, b = item
+    a, b, pa, pb = item
     from vyxal import elements as E
     c = _call
     r = {}
-    r["zip"] = c(E.vy_zip, _fresh(a), _fresh(b))
-    r["interleave"] = c(E.interleave, _fresh(a), _fresh(b))
-    r["unzip"] = c(lambda x, y, ctx: E.uninterleave(E.interleave(x, y, ctx), ctx), _fresh(a), _fresh(b))
-    r["cart"] = c(E.cartesian_product, _fresh(a), _fresh(b))
+    r["zip"] = c(E.vy_zip, build(a, pa), build(b, pb))
+    r["interleave"] = c(E.interleave, build(a, pa), build(b, pb))
+    r["unzip"] = c(lambda x, y, ctx: E.uninterleave(E.interleave(x, y, ctx), ctx), build(a, pa), build(b, pb))
+    r["cart"] = c(E.cartesian_product, build(a, pa), build(b, pb))
     return r
 
 
-def impl_tree(t):
+def impl_tree(item):
+    t, pat = item
     from vyxal import elements as E
     c = _call
-    return {"flatten": c(E.deep_flatten, _fresh(t)), "max": c(E.monadic_maximum, _fresh(t)),
-            "min": c(E.monadic_minimum, _fresh(t))}
+    return {"flatten": c(E.deep_flatten, build(t, pat)), "max": c(E.monadic_maximum, build(t, pat)),
+            "min": c(E.monadic_minimum, build(t, pat))}
 
 
-def impl_matrix(m):
+def impl_matrix(item):
+    m, pat = item
     from vyxal import helpers as H
-    from vyxal.context import Context
 
     def tr(v, ctx):
         return H.transpose(v, None, ctx)
-    return {"transpose": _call(tr, _fresh(m)), "transpose2": _call(lambda v, ctx: tr(tr(v, ctx), ctx), _fresh(m))}
+    return {"transpose": _call(tr, build(m, pat)), "transpose2": _call(lambda v, ctx: tr(tr(v, ctx), ctx), build(m, pat))}
+
+
+# ---- pipelines: nested values PRODUCED by builtins, fed to the builtins under test ----
+# a chain is (start spec, representation, [(producer, parameter), ...]); the consumers'
+# laws are stated relative to the (forced) intermediate value, which is recomputed
+# freshly for every consumer so that no consumer sees a value another one has walked
+
+PRODUCERS = ("transpose", "zip", "zipl", "wrap", "prefixes", "suffixes", "sublists", "uninterleave", "reverse",
+             "group", "head_remove", "cart", "interleave", "powerset", "cumsum", "pair", "wrapme")
+CONSUMERS = ("flatten", "max", "min", "length", "reverse", "head", "tail", "head_remove", "tail_remove")
+CHAIN_LEAF_CAP = 300
+
+
+def _listy(v):
+    from vyxal.LazyList import LazyList
+    return isinstance(v, (list, LazyList))
+
+
+def _produce(v, op, par, ctx):
+    """One producer step; None when the step does not apply to this value."""
+    from vyxal import elements as E, helpers as H
+    n = len(v)
+    if op == "transpose":
+        return H.transpose(v, None, ctx) if n and all(_listy(x) for x in v) else None
+    if op == "zip":
+        return E.vy_zip(v, build(par), ctx)
+    if op == "zipl":
+        return E.vy_zip(build(par), v, ctx)
+    if op == "wrap":
+        return E.wrap(v, 1 + par[0] % 3, ctx)
+    if op == "prefixes":
+        return H.prefixes(v, ctx) if n <= 6 else None
+    if op == "suffixes":
+        return H.suffixes(v, ctx) if n <= 6 else None
+    if op == "sublists":
+        return E.sublists(v, ctx) if n <= 4 else None
+    if op == "uninterleave":
+        return E.uninterleave(v, ctx)
+    if op == "reverse":
+        return E.reverse(v, ctx)
+    if op == "group":
+        return E.group_consecutive(v, ctx) if n and not any(_listy(x) for x in v) else None
+    if op == "head_remove":
+        return E.head_remove(v, ctx)
+    if op == "cart":
+        return E.cartesian_product(v, build(par), ctx) if n <= 4 else None
+    if op == "interleave":
+        return E.interleave(v, build(par), ctx)
+    if op == "powerset":
+        return H.vyxalify(E.powerset(v, ctx)) if n <= 3 else None
+    if op == "cumsum":
+        return E.cumulative_sum(v, ctx) if n and not any(_listy(x) for x in v) else None
+    if op == "pair":
+        return [v, build(par)]
+    if op == "wrapme":
+        return [v]
+    return None
+
+
+def _run_chain(start, pat, ops):
+    from vyxal.context import Context
+    ctx = Context()
+    v = build(start, pat)
+    applied = []
+    for op, par in ops:
+        w = _produce(v, op, par, ctx)
+        if w is None:
+            continue
+        v = w
+        applied.append(op)
+    return v, applied
+
+
+def impl_chain(item):
+    start, pat, ops = item
+    from vyxal import elements as E
+    inter, applied = _run_chain(start, pat, ops)
+    c = canon(inter)
+    if len(leaves(c)) > CHAIN_LEAF_CAP:
+        return {"skipped": True}
+    fns = {"flatten": E.deep_flatten, "max": E.monadic_maximum, "min": E.monadic_minimum, "length": E.length,
+           "reverse": E.reverse, "head": E.head, "tail": E.tail, "head_remove": E.head_remove, "tail_remove": E.tail_remove}
+    r = {"intermediate": c, "applied": applied}
+    for name in CONSUMERS:
+        r[name] = _call(fns[name], _run_chain(start, pat, ops)[0])
+    return r
 
 
 # ----------------------------------------------------------------------------
@@ -185,6 +290,49 @@ def random_list(rng, maxlen=12):
     return [rng.randint(lo, hi) for _ in range(n)]
 
 
+def extreme_list(rng, maxlen=8):
+    """Numbers a double cannot tell apart, rationals 1e-20 apart, huge denominators
+    (vlib.nasty), with true duplicates among them; a third of the lists integers only
+    (those also go through the model inside Coq)."""
+    style = rng.random()
+    if style < 0.35:
+        return N.tie_list(rng, maxlen, ints_only=True)
+    if style < 0.75:
+        return N.tie_list(rng, maxlen)
+    return N.nasty_number_list(rng, 1, maxlen)
+
+
+def pick_leaf(rng, p_extreme=0.3):
+    if rng.random() < p_extreme:
+        return rng.choice(rng.choice(N.FLOAT_TIES)) if rng.random() < 0.7 else rng.choice(N.NASTY_NUMBERS)
+    return rng.randint(-9, 9)
+
+
+def only_ints(spec):
+    return all(isinstance(x, int) and not isinstance(x, bool) for x in N.leaves_of(spec))
+
+
+def for_model(spec):
+    """Inputs the model (over Z) is evaluated on inside Coq: integers, and none so long
+    (2**1030 has 311 digits) that the n! / 2^n answers become megabytes of literals."""
+    return all(isinstance(x, int) and not isinstance(x, bool) and abs(x) < 10 ** 31 for x in N.leaves_of(spec))
+
+
+def queries_for(l):
+    """Items asked for in count / contains / find: members, an absent value, and for
+    every extreme member the distinct numbers closest to it (float twins, +-1 / +-1e-20)."""
+    xs = list(N.frac(l))
+    out = list(dict.fromkeys(xs))[:4] + [7]
+    for spec in l:
+        if N.is_extreme(spec) or N.float_twins(spec):
+            out += [N.frac(y) for y in N.float_twins(spec)[:2] + N.near(spec)[:1]]
+    return [N.unfrac(x) for x in dict.fromkeys(out)][:9]
+
+
+def ks_for(n):
+    return sorted({0, 1, 2, 3, max(n - 1, 0), n, n + 1} & set(range(0, n + 2)))
+
+
 STR_ALPHA = "abcabAB 01zé"
 
 
@@ -196,17 +344,16 @@ def random_string(rng, maxlen=12):
 
 def unary_items(env):
     L = env.budget(3, 5)
-    lists = [list(t) for n in range(L + 1) for t in itertools.product(ALPHA, repeat=n)]
+    lists = [(list(t), None) for n in range(L + 1) for t in itertools.product(ALPHA, repeat=n)]
     nexh = len(lists)
-    nrand = env.budget(200, 1200)
-    lists += [random_list(env.rng) for _ in range(nrand)]
-    items = []
-    for l in lists:
-        xs = list(dict.fromkeys(l))[:4] + [7]
-        n = len(l)
-        ks = sorted({0, 1, 2, 3, max(n - 1, 0), n, n + 1} & set(range(0, n + 2)))
-        items.append((l, xs, ks))
-    return items, nexh
+    rng = env.rng
+    for _ in range(env.budget(200, 1200)):
+        lists.append((random_list(rng), None if rng.random() < 0.7 else "l"))     # also handed over as a LazyList
+    for _ in range(env.budget(300, 2500)):
+        lists.append((extreme_list(rng), None if rng.random() < 0.8 else "l"))
+    lists += [(list(g), None) for g in N.FLOAT_TIES] + [(list(reversed(g)), None) for g in N.FLOAT_TIES]
+    lists += [(l, None) for l in N.FIXED_EXTREME_LISTS if N.nesting_depth(l) == 1]
+    return [(l, queries_for(l), ks_for(len(l)), pat) for l, pat in lists], nexh
 
 
 def string_items(env):
@@ -218,28 +365,34 @@ def string_items(env):
         xs = list(dict.fromkeys(s))[:3] + ["Q"]
         n = len(s)
         ks = sorted({1, 2, 3, n, n + 1} & set(range(1, n + 2)))
-        items.append((s, xs, ks))
+        items.append((s, xs, ks, None))
     return items, nexh
 
 
 def binary_items(env):
     alpha = env.budget((-1, 0, 2), (-1, 0, 1, 2))
     small = [list(t) for n in range(4) for t in itertools.product(alpha, repeat=n)]
-    pairs = [(a, b) for a in small for b in small]
+    pairs = [(a, b, None, None) for a in small for b in small]
     nexh = len(pairs)
+    rng = env.rng
+
+    def rep():
+        return None if rng.random() < 0.7 else "l"
     for _ in range(env.budget(150, 1000)):
-        pairs.append((random_list(env.rng), random_list(env.rng)))
+        pairs.append((random_list(rng), random_list(rng), rep(), rep()))
     for _ in range(env.budget(50, 300)):     # equal lengths: the inverse law's hypothesis
-        a = random_list(env.rng)
-        pairs.append((a, [env.rng.randint(-5, 5) for _ in a]))
+        a = random_list(rng)
+        pairs.append((a, [rng.randint(-5, 5) for _ in a], rep(), rep()))
+    for _ in range(env.budget(100, 800)):    # numeric extremes
+        pairs.append((extreme_list(rng, 5), extreme_list(rng, 5), rep(), rep()))
     return pairs, nexh
 
 
 def string_pairs(env):
     small = ["".join(t) for n in range(3) for t in itertools.product("ab", repeat=n)]
-    pairs = [(a, b) for a in small for b in small]
+    pairs = [(a, b, None, None) for a in small for b in small]
     for _ in range(env.budget(150, 1000)):
-        pairs.append((random_string(env.rng), random_string(env.rng)))
+        pairs.append((random_string(env.rng), random_string(env.rng), None, None))
     return pairs
 
 
@@ -287,32 +440,72 @@ def random_tree(rng, depth=0):
 
 
 def tree_items(env):
-    N = env.budget(5, 7)
-    out = []
+    """(nested list, representation): every enumerated shape and every random tree in
+    EVERY distinguishable mix of plain lists and LazyLists by depth (plain rows holding
+    lazy rows holding plain rows ...), plus per-node random mixes."""
+    nodes = env.budget(5, 7)
+    rng = env.rng
+    trees = []
     vals = [(3, -1, 2, 0, -2, 1, 3), (0, 0, 1, -1, 2, 2, -2)]
-    for n in range(N + 1):
+    for n in range(nodes + 1):
         for i, f in enumerate(forests(n)):
-            out.append(label(f, vals[i % 2]))
-    nexh = len(out)
-    out += [random_tree(env.rng) for _ in range(env.budget(200, 2000))]
+            trees.append(label(f, vals[i % 2]))
+    nexh = len(trees)
+    for _ in range(env.budget(150, 1500)):
+        trees.append(random_tree(rng))
+    for _ in range(env.budget(150, 1500)):
+        trees.append(N.nested_list(rng, 4, 4, lambda: pick_leaf(rng)))
+    trees += [l for l in N.FIXED_EXTREME_LISTS]
+    out = []
+    for k, t in enumerate(trees):
+        pats = N.mixed_variants(t, rng, extra_random=1)
+        if k < nexh and len(pats) > 4 and env.tier == "quick":
+            pats = pats[:2] + rng.sample(pats[2:], 2)       # quick: 4 of the mixes per enumerated shape
+        out += [(t, pat) for pat in pats]
     return out, nexh
 
 
 def matrix_items(env):
     out = []
     shapes = [s for n in range(4) for s in itertools.product(range(4), repeat=n)]
-    for s in shapes:                      # every ragged shape with <= 3 rows of length <= 3
+    pats = ("p", "l", "pl", "lp")
+    for i, s in enumerate(shapes):        # every ragged shape with <= 3 rows of length <= 3
         c = itertools.count(1)
-        out.append([[next(c) * (-1) ** j for j in range(k)] for k in s])
+        out.append(([[next(c) * (-1) ** j for j in range(k)] for k in s], pats[i % 4]))
     nexh = len(out)
     rng = env.rng
     for _ in range(env.budget(150, 1500)):
         if rng.random() < 0.5:            # rectangular
             r, c = rng.randint(1, 6), rng.randint(1, 6)
-            out.append([[rng.randint(-9, 9) for _ in range(c)] for _ in range(r)])
+            m = [[pick_leaf(rng, 0.1) for _ in range(c)] for _ in range(r)]
         else:
-            out.append([[rng.randint(-9, 9) for _ in range(rng.randint(0, 6))] for _ in range(rng.randint(0, 6))])
+            m = [[pick_leaf(rng, 0.1) for _ in range(rng.randint(0, 6))] for _ in range(rng.randint(0, 6))]
+        out.append((m, rng.choice(pats + (rng.randrange(1, 2 ** 30),))))
     return out, nexh
+
+
+def chain_items(env):
+    """Pipelines of producers (transpose, zip, wrap, prefixes, ...) over a small start
+    value in a random representation; the result is what the consumers are tested on."""
+    rng = env.rng
+    out = []
+    for _ in range(env.budget(1500, 12000)):
+        kind = rng.random()
+        if kind < 0.4:
+            start = [pick_leaf(rng, 0.15) for _ in range(rng.randint(0, 5))]
+        elif kind < 0.75:
+            r, c = rng.randint(1, 3), rng.randint(1, 3)
+            start = [[pick_leaf(rng, 0.15) for _ in range(c)] for _ in range(r)]
+        else:
+            start = N.nested_list(rng, 3, 3, lambda: pick_leaf(rng, 0.15))
+        pat = rng.choice(N.mixed_variants(start, rng, extra_random=2))
+        ops = []
+        for _ in range(rng.randint(1, 3)):
+            op = rng.choice(PRODUCERS)
+            par = [rng.randint(-3, 3) for _ in range(rng.randint(0, 3))] if op != "wrap" else [rng.randint(0, 2)]
+            ops.append((op, par))
+        out.append((start, pat, ops))
+    return out
 
 
 # ----------------------------------------------------------------------------
@@ -351,11 +544,11 @@ class Oracle:
 
     # -- one list or string --------------------------------------------------
     def unary(self, item, r):
-        l, xs, ks = item
-        s = list(l)                      # the sequence of items
-        n = len(s)
+        l, xs, ks, pat = item
         is_str = isinstance(l, str)
-        inp = l
+        s = list(l) if is_str else N.frac(l)      # the sequence of items, exact numbers
+        n = len(s)
+        inp = shown(l, pat)
         ck = lambda b, law, got, want, cls=None: self.check(b, law, inp, got, want, cls)  # noqa: E731
         ck("sort", "sorted()", r["sort"], sorted(s))
         if not isinstance(r["sort"], Exc):
@@ -436,12 +629,13 @@ class Oracle:
             self.holds("head", "[head] + head_remove = l", inp, [r["head"]] + norm(r["head_remove"], 1) == s, (r["head"], r["head_remove"]))
             self.holds("tail", "tail_remove + [tail] = l", inp, norm(r["tail_remove"], 1) + [r["tail"]] == s, (r["tail_remove"], r["tail"]))
         for x, cnt, con, fnd in r["queries"]:
-            q = {"list": l, "x": x}
+            q = {"list": inp, "x": x}
+            x = N.frac(x)
             self.check("count", "list.count", q, cnt, s.count(x))
             self.check("contains", "x in l", q, con, int(x in s))
             self.check("find", "first index or -1", q, fnd, s.index(x) if x in s else -1)
         for k, w in r["wrap"]:
-            q = {"list": l, "k": k}
+            q = {"list": inp, "k": k}
             if k > 0:
                 self.check("wrap", "chunks l[i:i+k]", q, w, [s[i:i + k] for i in range(0, n, k)])
                 if not isinstance(w, Exc):
@@ -452,9 +646,9 @@ class Oracle:
                 self.check("wrap", "k = 0: no chunk", q, w, [])
 
     def binary(self, item, r):
-        a, b = item
-        sa, sb = list(a), list(b)
-        inp = {"a": a, "b": b}
+        a, b, pa, pb = item
+        sa, sb = (list(a), list(b)) if isinstance(a, str) else (N.frac(a), N.frac(b))
+        inp = {"a": shown(a, pa), "b": shown(b, pb)}
         self.check("zip", "zip_longest(fill 0)", inp, r["zip"], [list(p) for p in itertools.zip_longest(sa, sb, fillvalue=0)])
         sent = object()
         self.check("interleave", "alternate, rest appended", inp, r["interleave"],
@@ -469,19 +663,47 @@ class Oracle:
             self.holds("cart", "every pair exactly once", inp, sorted(g) == want, r["cart"])
             self.holds("cart", "|a|*|b| pairs", inp, len(g) == len(sa) * len(sb), len(g))
 
-    def tree(self, t, r):
-        lv = leaves(t)
-        self.check("flatten", "leaves left to right", t, r["flatten"], lv)
-        self.check("max", "max of the leaves", t, r["max"], max(lv) if lv else [])
-        self.check("min", "min of the leaves", t, r["min"], min(lv) if lv else [])
+    def tree(self, item, r):
+        t, pat = item
+        inp = shown(t, pat)
+        lv = leaves(N.frac(t))
+        self.check("flatten", "leaves left to right", inp, r["flatten"], lv)
+        self.check("max", "max of the leaves", inp, r["max"], max(lv) if lv else [])
+        self.check("min", "min of the leaves", inp, r["min"], min(lv) if lv else [])
 
-    def matrix(self, m, r):
+    def matrix(self, item, r):
+        m, pat = item
+        inp = shown(m, pat)
+        m = N.frac(m)
         w = max([len(x) for x in m], default=0)
-        self.check("transpose", "column j = j-th items of the rows that have one", m, r["transpose"],
+        self.check("transpose", "column j = j-th items of the rows that have one", inp, r["transpose"],
                    [[x[j] for x in m if j < len(x)] for j in range(w)])
         if m and w and all(len(x) == w for x in m):
-            self.check("transpose", "rectangular: zip(*rows)", m, r["transpose"], [list(c) for c in zip(*m)])
-            self.check("transpose", "rectangular: involution", m, r["transpose2"], m)
+            self.check("transpose", "rectangular: zip(*rows)", inp, r["transpose"], [list(c) for c in zip(*m)])
+            self.check("transpose", "rectangular: involution", inp, r["transpose2"], m)
+
+    def chain(self, item, r):
+        """Consumers on a nested value produced by other builtins (LazyLists inside plain
+        lists inside LazyLists ...), relative to that value forced."""
+        if r.get("skipped"):
+            return
+        start, pat, ops = item
+        c = r["intermediate"]
+        inp = {"start": shown(start, pat), "pipeline": [[op, par] for op, par in ops], "applied": r["applied"], "value": N.unfrac(c)}
+        if not isinstance(c, list):
+            return
+        lv = leaves(c)
+        ck = lambda b, law, want: self.check(b, law, inp, r[b], want, cls=f"{b}:pipeline")  # noqa: E731
+        ck("flatten", "leaves of a value produced by other builtins", lv)
+        if all(isinstance(x, (int, Fraction)) for x in lv):
+            ck("max", "max of the leaves of a produced value", max(lv) if lv else [])
+            ck("min", "min of the leaves of a produced value", min(lv) if lv else [])
+        ck("length", "len of a produced value", len(c))
+        ck("reverse", "[::-1] of a produced value", c[::-1])
+        ck("head", "first item of a produced value", c[0] if c else 0)
+        ck("tail", "last item of a produced value", c[-1] if c else 0)
+        ck("head_remove", "[1:] of a produced value", c[1:])
+        ck("tail_remove", "[:-1] of a produced value", c[:-1])
 
 
 # ----------------------------------------------------------------------------
@@ -598,7 +820,7 @@ DEFAULT = {"Z": "0", "option Z": "None", "option (list (list Z))": "None"}
 
 
 def render_unary(env, item, r):
-    l, xs, ks = item
+    l, xs, ks, pat = item
     parts = [zl(l)]
     for name, ty, rend, _, _ in UCOMP:
         v = r[name]
@@ -612,7 +834,7 @@ def render_unary(env, item, r):
             env.disagree(name, {"list": l}, "a value of type " + ty, repr(v)[:300])
             parts.append(DEFAULT.get(ty, "[]"))
     try:
-        parts.append("[" + ";".join(f"({z(x)},({z(a)},{z(b)},{z(c)}))" for x, a, b, c in r["queries"]) + "]")
+        parts.append("[" + ";".join(f"({z(x)},({z(a)},{z(b)},{z(c)}))" for x, a, b, c in r["queries"] if for_model(x)) + "]")
     except Shape:
         env.disagree("count/contains/find", {"list": l}, "integers", repr(r["queries"])[:300])
         parts.append("[]")
@@ -648,11 +870,31 @@ def run_cases(env, name, preamble, rendered, names, describe, shard):
 
 
 def correspondence(env, U, UR, B, BR, T, TR, M, MR):
+    """The model is over Z: integer inputs only (rational extremes are compared exactly by
+    the oracle).  One case per distinct (input, answers): the representation of the input
+    (plain / lazy at each level) must not matter, so normally one case per input."""
     stats = {}
+    import random
+    keep = [(it, r) for it, r in zip(U, UR) if for_model(it[0])]
+    random.Random(16).shuffle(keep)          # spread the heavy cases over the parallel shards
+    U, UR = [k[0] for k in keep], [k[1] for k in keep]
+    keep = [((a, b), r, (pa, pb)) for (a, b, pa, pb), r in zip(B, BR) if for_model(a) and for_model(b)]
+    B, BR, BP = [k[0] for k in keep], [k[1] for k in keep], [k[2] for k in keep]
+
+    def distinct(items, res):
+        seen, out = set(), []
+        for (x, pat), r in zip(items, res):
+            key = (repr(x), repr(r))
+            if for_model(x) and key not in seen:
+                seen.add(key)
+                out.append((x, r, pat))
+        return [o[0] for o in out], [o[1] for o in out], [o[2] for o in out]
+    T, TR, TP = distinct(T, TR)
+    M, MR, MP = distinct(M, MR)
     # unary
     rendered = [render_unary(env, it, r) for it, r in zip(U, UR)]
     stats["unary"] = run_cases(env, "un", unary_preamble(), rendered, UNAMES,
-                               lambda i: {"list": U[i][0], "impl": {k: repr(v)[:200] for k, v in UR[i].items()}}, shard=env.budget(120, 150))
+                               lambda i: {"list": shown(U[i][0], U[i][3]), "impl": {k: repr(v)[:200] for k, v in UR[i].items()}}, shard=env.budget(50, 150))
     # binary
     pre = PRE + """Record bcase := B { ba : list Z; bb : list Z; bz : list (Z * Z); bi : list Z; bu : option (list (list Z)); bc : list (Z * Z) }.
 Definition comps (c : bcase) : list bool := let a := ba c in let b := bb c in
@@ -673,7 +915,7 @@ Definition ok (c : bcase) : bool := forallb (fun b => b) (comps c).
             env.disagree("zip/interleave/cart", {"a": a, "b": b}, "integer lists / pairs", repr(e.args[0])[:300])
             rb.append(f"B {zl(a)} {zl(b)} [] [] None []")
     stats["binary"] = run_cases(env, "bin", pre, rb, ["zip", "interleave", "uninterleave∘interleave", "cartesian product (order)", "cartesian product (multiset)"],
-                                lambda i: {"a": B[i][0], "b": B[i][1], "impl": {k: repr(v)[:200] for k, v in BR[i].items()}}, shard=400)
+                                lambda i: {"a": shown(B[i][0], BP[i][0]), "b": shown(B[i][1], BP[i][1]), "impl": {k: repr(v)[:200] for k, v in BR[i].items()}}, shard=400)
     # trees
     pre = PRE + """Record tcase := T { tt : list tree; tf : list Z; tmax : option Z; tmin : option Z }.
 Definition comps (c : tcase) : list bool :=
@@ -690,7 +932,7 @@ Definition ok (c : tcase) : bool := forallb (fun b => b) (comps c).
             env.disagree("flatten/max/min", {"nested": t}, "integer list / integer", repr(e.args[0])[:300])
             rt.append("T [] [] None None")
     stats["tree"] = run_cases(env, "tree", pre, rt, ["flatten", "max", "min"],
-                              lambda i: {"nested": T[i], "impl": {k: repr(v)[:200] for k, v in TR[i].items()}}, shard=400)
+                              lambda i: {"nested": shown(T[i], TP[i]), "impl": {k: repr(v)[:200] for k, v in TR[i].items()}}, shard=400)
     # matrices
     pre = PRE + """Record mcase := M { mm : list (list Z); mt : list (list Z) }.
 Definition comps (c : mcase) : list bool := [eLL (transpose (mm c)) (mt c)].
@@ -706,11 +948,24 @@ Definition ok (c : mcase) : bool := forallb (fun b => b) (comps c).
             env.disagree("transpose", {"rows": m}, "a list of integer lists", repr(e.args[0])[:300])
             rm.append("M [] []")
     stats["matrix"] = run_cases(env, "mat", pre, rm, ["transpose"],
-                                lambda i: {"rows": M[i], "impl": repr(MR[i]["transpose"])[:300]}, shard=500)
+                                lambda i: {"rows": shown(M[i], MP[i]), "impl": repr(MR[i]["transpose"])[:300]}, shard=500)
     return stats
 
 
 # ----------------------------------------------------------------------------
+
+def J(x):
+    """json-able copy of a result (Fractions as {"q": [p, q]} specs)."""
+    if isinstance(x, dict):
+        return {k: J(v) for k, v in x.items()}
+    if isinstance(x, (list, tuple)):
+        return [J(v) for v in x]
+    if isinstance(x, Fraction):
+        return N.unfrac(x)
+    if isinstance(x, Exc):
+        return repr(x)
+    return x
+
 
 def evaluate(env, fn, items, what):
     res = V.pmap(fn, items, timeout=20)
@@ -730,7 +985,13 @@ def run(env, with_model=True):
                 "head-remove tail-remove length): model (evaluated inside Coq) vs implementation on all integer lists of length <= L over -2..3 "
                 "(L=3 quick, 5 thorough) and random lists to length 12; pairs of lists (zip/interleave/cartesian product), nested lists (flatten/max/min), "
                 "ragged matrices (transpose); the same inputs plus strings go through ~40 laws stated with itertools/builtins on the implementation. "
-                "Non-trivial = non-empty input; distinct by (family, canonical input).")
+                "Item pools include numeric extremes from vlib/nasty.py (distinct numbers equal as doubles: adjacent ints >= 2**53, 10**20+k, 2**1030+k, "
+                "rationals 1e-20 apart, huge denominators) compared exactly as int/Fraction; integer-only ones also go through the model. "
+                "Every list-valued input is also handed over as a LazyList; nested inputs in every distinguishable mix of plain lists and LazyLists by depth "
+                "(plain holding lazy holding plain ..., depth <= 4, plus per-node random mixes); pipelines of 1-3 producers (transpose zip wrap prefixes suffixes "
+                "sublists uninterleave reverse group cartesian-product interleave powerset cumsum ...) build nested values that are fed to flatten/max/min/length/"
+                "reverse/head/tail/head-remove/tail-remove, laws stated relative to the forced intermediate. "
+                "Non-trivial = non-empty input; distinct by (family, canonical input, representation).")
     V.import_repo()
     import vyxal.elements  # noqa: F401  (imported before forking)
     import vyxal.helpers  # noqa: F401
@@ -740,12 +1001,14 @@ def run(env, with_model=True):
     SB = string_pairs(env)
     T, nt = tree_items(env)
     M, nm = matrix_items(env)
+    C = chain_items(env)
     UR = evaluate(env, impl_unary, U, "unary builtins")
     SR = evaluate(env, impl_unary, S, "unary builtins (string)")
     BR = evaluate(env, impl_binary, B, "binary builtins")
     SBR = evaluate(env, impl_binary, SB, "binary builtins (string)")
     TR = evaluate(env, impl_tree, T, "flatten/max/min")
     MR = evaluate(env, impl_matrix, M, "transpose")
+    CR = evaluate(env, impl_chain, C, "pipeline")
 
     def live(items, res):
         keep = [(i, r) for i, r in zip(items, res) if r is not None]
@@ -756,6 +1019,7 @@ def run(env, with_model=True):
     SB, SBR = live(SB, SBR)
     T, TR = live(T, TR)
     M, MR = live(M, MR)
+    C, CR = live(C, CR)
 
     o = Oracle(env)
     for it, r in zip(U, UR):
@@ -770,10 +1034,13 @@ def run(env, with_model=True):
         o.tree(t, r)
     for m, r in zip(M, MR):
         o.matrix(m, r)
+    for c, r in zip(C, CR):
+        o.chain(c, r)
     stats = correspondence(env, U, UR, B, BR, T, TR, M, MR) if with_model else {}
 
-    keys = ([f"u:{it[0]}" for it in U if it[0]] + [f"s:{it[0]}" for it in S if it[0]] + [f"b:{a}|{b}" for a, b in B if a or b]
-            + [f"sb:{a}|{b}" for a, b in SB if a or b] + [f"t:{t}" for t in T if t] + [f"m:{m}" for m in M if m])
+    keys = ([f"u:{it[0]}:{it[3]}" for it in U if it[0]] + [f"s:{it[0]}" for it in S if it[0]] + [f"b:{a}|{b}|{pa}{pb}" for a, b, pa, pb in B if a or b]
+            + [f"sb:{a}|{b}" for a, b, _, _ in SB if a or b] + [f"t:{t}:{pat}" for t, pat in T if t] + [f"m:{m}:{pat}" for m, pat in M if m]
+            + [f"c:{c}" for c, r in zip(C, CR) if not r.get("skipped")])
     env.count(sum(o.n.values()) + sum(stats.values()), keys)
     env.note("oracle_law_evaluations_per_builtin", dict(sorted(o.n.items())))
     env.note("oracle_failures_per_law", dict(sorted(o.reported.items())))
@@ -783,20 +1050,32 @@ def run(env, with_model=True):
                           "length_histogram": dict(sorted(collections.Counter(len(it[0]) for it in U).items()))},
         "strings": {"exhaustive_over_ab1": ns, "random_to_length_12": len(S) - ns},
         "pairs_of_lists": {"exhaustive": nb, "random": len(B) - nb, "string_pairs": len(SB)},
-        "nested_lists": {"all_shapes_up_to_nodes": env.budget(5, 7), "exhaustive": nt, "random_depth_le_5": len(T) - nt},
+        "nested_lists": {"all_shapes_up_to_nodes": env.budget(5, 7), "shapes_enumerated": nt, "inputs_(tree,representation)": len(T),
+                         "distinct_trees": len({repr(t) for t, _ in T}),
+                         "by_representation": dict(sorted(collections.Counter(p if isinstance(p, str) else "per-node random" for _, p in T).items())),
+                         "depth_histogram": dict(sorted(collections.Counter(N.nesting_depth(t) for t, _ in T).items()))},
         "matrices": {"all_ragged_shapes_le_3x3": nm, "random": len(M) - nm},
+        "numeric_extremes": {"lists_with_an_extreme_item": sum(1 for it in U if any(N.is_extreme(x) or N.float_twins(x) for x in it[0])),
+                             "lists_with_two_float_equal_distinct_items": sum(1 for it in U if any(y in N.float_twins(x) for x in it[0] for y in it[0])),
+                             "lists_handed_over_as_LazyList": sum(1 for it in U if it[3] == "l"),
+                             "nested_with_extreme_leaf": sum(1 for t, _ in T if any(N.is_extreme(x) or N.float_twins(x) for x in N.leaves_of(t)))},
+        "pipelines": {"chains": len(C), "skipped_too_large": sum(1 for r in CR if r.get("skipped")),
+                      "producer_steps_applied": dict(sorted(collections.Counter(op for r in CR for op in r.get("applied", [])).items())),
+                      "intermediate_depth_histogram": dict(sorted(collections.Counter(depth_of(r["intermediate"]) for r in CR if not r.get("skipped")).items()))},
         "permutations_only_up_to_length": PERM_CAP, "powerset_only_up_to_length": POWER_CAP,
         "count/contains/find_queries_per_list": "first 4 distinct items + one absent value", "wrap_k": "0,1,2,3,n-1,n,n+1",
     })
-    mid = U[len(U) // 2]
-    env.sample({"list": mid[0], "sort": UR[len(U) // 2]["sort"], "uniquify": UR[len(U) // 2]["uniquify"], "grade_up": UR[len(U) // 2]["grade_up"]})
-    env.sample({"list": U[-1][0], "cumsum": UR[-1]["cumsum"], "group": UR[-1]["group"], "wrap": [list(w) for w in UR[-1]["wrap"]][:2]})
-    env.sample({"pair": list(B[-1]), "zip": BR[-1]["zip"], "interleave": BR[-1]["interleave"]})
-    env.sample({"nested": T[-1], "flatten": TR[-1]["flatten"]})
-    env.sample({"rows": M[-1], "transpose": MR[-1]["transpose"]})
+    mid = nu // 2
+    env.sample(J({"list": U[mid][0], "sort": UR[mid]["sort"], "uniquify": UR[mid]["uniquify"], "grade_up": UR[mid]["grade_up"]}))
+    env.sample(J({"list": U[-1][0], "max": UR[-1]["max"], "min": UR[-1]["min"], "sort": UR[-1]["sort"]}))
+    env.sample(J({"list": U[nu + 1][0], "cumsum": UR[nu + 1]["cumsum"], "group": UR[nu + 1]["group"], "wrap": [list(w) for w in UR[nu + 1]["wrap"]][:2]}))
+    env.sample(J({"pair": list(B[-1][:2]), "zip": BR[-1]["zip"], "interleave": BR[-1]["interleave"]}))
+    env.sample(J({"nested": shown(*T[-1]), "flatten": TR[-1]["flatten"]}))
+    env.sample(J({"rows": shown(*M[-1]), "transpose": MR[-1]["transpose"]}))
+    env.sample(J({"pipeline": {"start": shown(C[0][0], C[0][1]), "ops": C[0][2]}, "value": CR[0].get("intermediate"), "flatten": CR[0].get("flatten")}))
     env.sample({"string": S[-1][0], "sublists": repr(SR[-1]["sublists"])[:120]})
     env.assume("the Gallina definitions of Model/ListOps.v equal the Python builtins on integer lists (checked by the correspondence on the listed inputs, not proved)")
-    env.assume("items are integers (Z): Python int / sympy Integer arithmetic and comparison are exact; strings and nested items are covered by the oracle only")
+    env.assume("items of the model are integers (Z): Python int / sympy Integer arithmetic and comparison are exact; non-integer rationals, strings and the representation of nested inputs (list / LazyList) are covered by the oracle only, which compares exactly (int / Fraction)")
     env.assume("LazyList results are forced completely before comparison (laziness itself is property C13/C14)")
     env.assume("cartesian_product is compared exactly (order included) against the anti-diagonal model cart_diag and as a sorted multiset against the row-major cart; the laws are proved for both (C16_cartesian_diagonal_permutation)")
 
